@@ -168,6 +168,8 @@ pub enum Op {
     Delay { node: u8, k: u8 },
     /// read all observers
     Query { node: u8 },
+    /// Builder::generate_keypair() through this node's resolver and RNG seam (twice)
+    Keygen { node: u8 },
     /// marks the start of the fault-free epilogue (bookkeeping only)
     Epilogue,
 }
@@ -186,6 +188,7 @@ impl Op {
             Op::Dup { .. } => "dup",
             Op::Delay { .. } => "delay",
             Op::Query { .. } => "query",
+            Op::Keygen { .. } => "keygen",
             Op::Epilogue => "epilogue",
         }
     }
